@@ -17,6 +17,9 @@ type TOp struct {
 	Op string `json:"op"` // delay | stop | dcall | dcancel | tcall | tnext | tcancel
 	At int64  `json:"at"` // the task sleeps until this simulated instant (ns since start) first; 0 = no sleep
 	ID int    `json:"id,omitempty"`
+	// LatNs: the function passed by a dcall/delay step stays busy for this much simulated time after
+	// it has recorded its start (callback_slow), so that other calls can land while it is running
+	LatNs int64 `json:"lat_ns,omitempty"`
 }
 
 // TimerWork is a C20 workload: Delay, a debouncer or a throttle driven by client
@@ -32,6 +35,18 @@ type TimerWork struct {
 }
 
 func (w *TimerWork) Sim() SimSpec { return w.P }
+
+func (w *TimerWork) maxLat() int64 {
+	var m int64
+	for _, t := range w.Tasks {
+		for _, o := range t {
+			if o.LatNs > m {
+				m = o.LatNs
+			}
+		}
+	}
+	return m
+}
 
 func (w *TimerWork) Key() string {
 	return fmt.Sprintf("c20/%s/%d/%v/%v/tf=%v", w.Kind, w.WaitNs, w.Trailing, w.Tasks, w.P.TimeFaults)
@@ -139,16 +154,23 @@ func (w *TimerWork) Exec(x *Exec) {
 					simrt.Sleep(time.Duration(d))
 				}
 				id := o.ID
+				lat := time.Duration(o.LatNs)
+				body := func() {
+					sh.ran(id, simrt.Stamp(), x.S.Now())
+					if lat > 0 {
+						simrt.Sleep(lat)
+					}
+				}
 				r.Inv, r.TI = simrt.Stamp(), x.S.Now()
 				switch o.Op {
 				case "delay":
-					tm = gogu.Delay(wait, func() { sh.ran(id, simrt.Stamp(), x.S.Now()) })
+					tm = gogu.Delay(wait, body)
 				case "stop":
 					if tm != nil {
 						r.Bool = tm.Stop()
 					}
 				case "dcall":
-					dcall(func() { sh.ran(id, simrt.Stamp(), x.S.Now()) })
+					dcall(body)
 				case "dcancel":
 					dcancel()
 				case "tcall":
@@ -175,7 +197,7 @@ func (w *TimerWork) Exec(x *Exec) {
 	x.Spawn("closer", func() {
 		active.Wait()
 		x.S.StopFaults()
-		simrt.Sleep(time.Duration(2*w.WaitNs + w.MaxDelta + 1))
+		simrt.Sleep(time.Duration(2*w.WaitNs + w.MaxDelta + w.maxLat() + 1))
 		r := &recs[ci][0]
 		*r = topRec{Task: ci, Op: "settled", Fin: true}
 		r.Inv, r.TI = simrt.Stamp(), x.S.Now()
@@ -608,7 +630,7 @@ func genC20(r *simrt.Rand, tier string, idx uint64) Workload {
 	}
 	switch w.Kind {
 	case "delay":
-		ops := []TOp{{Op: "delay", At: r.Int63n(3) * ms, ID: 1}}
+		ops := []TOp{{Op: "delay", At: r.Int63n(3) * ms, ID: 1, LatNs: []int64{0, 0, 0, 2 * ms}[r.Intn(4)]}}
 		if r.Bool(0.7) {
 			ops = append(ops, TOp{Op: "stop", At: ops[0].At + gap()})
 		}
@@ -616,6 +638,7 @@ func genC20(r *simrt.Rand, tier string, idx uint64) Workload {
 	case "debounce":
 		nt := 1 + r.Intn(3)
 		id := 0
+		slow := r.Intn(3) == 0
 		for t := 0; t < nt; t++ {
 			n := 1 + r.Intn(8)
 			if tier == "thorough" && r.Bool(0.2) {
@@ -628,7 +651,13 @@ func genC20(r *simrt.Rand, tier string, idx uint64) Workload {
 				if r.Bool(0.15) {
 					ops = append(ops, TOp{Op: "dcancel", At: at})
 				} else {
-					ops = append(ops, TOp{Op: "dcall", At: at, ID: id})
+					o := TOp{Op: "dcall", At: at, ID: id}
+					if slow {
+						// the debounced function stays busy for a while: later calls and cancels can land
+						// while it is still running
+						o.LatNs = []int64{0, 1, 2 * ms, w.WaitNs / 2, w.WaitNs + 1}[r.Intn(5)]
+					}
+					ops = append(ops, o)
 				}
 				at += gap()
 			}
